@@ -6,6 +6,7 @@ mod nf;
 mod oracle;
 mod props;
 mod run;
+mod sched;
 mod stats;
 mod tables;
 mod variants;
@@ -39,6 +40,13 @@ fn main() {
         .stack_size(16 << 20)
         .build_global()
         .unwrap();
+    if args[1] == "--c12-ref" {
+        std::process::exit(props::c12::child_ref(args[2].parse().unwrap()));
+    }
+    if args[1] == "--c12-shard" {
+        let upto = args[4].parse::<usize>().ok();
+        std::process::exit(props::c12::child_shard(args[2].parse().unwrap(), args[3].parse().unwrap(), upto, &args[5]));
+    }
     if args[1] == "--merge-evidence" {
         std::process::exit(props::c03::merge_evidence(&args[2], &args[3], &args[4..]));
     }
@@ -76,7 +84,10 @@ fn main() {
         "C08" => props::c08::run(tier),
         "C09" => props::c09::run(tier),
         "C10" => props::c10::run(tier),
+        "C11" => props::c11::run(tier),
+        "C12" => props::c12::run(tier),
         "C13" => props::c13::run(tier),
+        "C17" => props::c17::run(tier),
         "C14" => props::c14::run(tier),
         "C15" => props::c15::run(tier),
         "C16" => props::c16::run(tier),
@@ -97,7 +108,10 @@ pub fn replay_case(case: &serde_json::Value, verbose: bool) -> Vec<String> {
         "C08" => props::c08::replay(case, verbose),
         "C09" => props::c09::replay(case, verbose),
         "C10" => props::c10::replay(case, verbose),
+        "C11" => props::c11::replay(case, verbose),
+        "C12" => props::c12::replay(case, verbose),
         "C13" => props::c13::replay(case, verbose),
+        "C17" => props::c17::replay(case, verbose),
         "C14" => props::c14::replay(case, verbose),
         "C15" => props::c15::replay(case, verbose),
         "C16" => props::c16::replay(case, verbose),
